@@ -5,11 +5,12 @@ pub mod c14;
 pub mod c17;
 pub mod c18;
 pub mod c20;
+pub mod simc;
 
 use crate::run::Check;
 
 pub fn all() -> Vec<Check> {
-    vec![c01::check(), c06::check(), boundary::c07(), boundary::c08(), boundary::c09(), boundary::c10(), boundary::c11(), boundary::c12(), boundary::c13(), boundary::c15(), boundary::c16(), boundary::c19(), c14::check(), c17::check(), c18::check(), c20::check()]
+    vec![c01::check(), simc::c02(), simc::c03(), simc::c04(), simc::c05(), c06::check(), boundary::c07(), boundary::c08(), boundary::c09(), boundary::c10(), boundary::c11(), boundary::c12(), boundary::c13(), boundary::c15(), boundary::c16(), boundary::c19(), c14::check(), c17::check(), c18::check(), c20::check()]
 }
 
 pub fn get(id: &str) -> Option<Check> {
